@@ -655,7 +655,7 @@ impl Prop for C16 {
         ]
     }
     fn cases(&self, tier: Tier) -> u32 {
-        tier.pick(600, 12_000)
+        tier.pick(1800, 12_000)
     }
     fn strategy(&self, tier: Tier) -> BoxedStrategy<Case> {
         let n = tier.pick(40usize, 70usize);
